@@ -92,13 +92,13 @@ Print Assumptions C19_progress.
 
 (** The executable verdict used by the correspondence check: its specification part accepts
     every completed behaviour of the model, and its model part exhibits a run. *)
-Theorem C19_check_accepts_model : forall sc s k, reachable sc s -> pc s = Finished ->
-  spec_ok (check_case k sc (psums 0 (reps sc)) (recvd s) (closed s)) = true.
+Theorem C19_check_accepts_model : forall sc s k pcs, reachable sc s -> pc s = Finished ->
+  spec_ok (check_case k sc pcs (psums 0 (reps sc)) (recvd s) (closed s)) = true.
 Proof. exact check_accepts_model. Qed.
 Print Assumptions C19_check_accepts_model.
 
-Theorem C19_check_model_run : forall k sc sizes rc cl,
-  model_run (check_case k sc sizes rc cl) = true ->
+Theorem C19_check_model_run : forall k sc pcs sizes rc cl,
+  model_run (check_case k sc pcs sizes rc cl) = true ->
   exists s, reachable sc s /\ recvd s = rc /\ size s = last sizes 0 /\ closed s = cl.
 Proof. exact model_run_exhibits_run. Qed.
 Print Assumptions C19_check_model_run.
@@ -128,8 +128,12 @@ Example C19_example_close_blocks : run (init []) [CloseSend] = None /\ run (init
 Proof. split; vm_compute; [reflexivity | discriminate]. Qed.
 
 Example C19_example_check :
-  verdict_ok (check_case 1 ex_script [5; 7; 7; 10] [7; 10; 10] true) = true
-  /\ spec_final (check_case 1 ex_script [5; 7; 7; 10] [7] true) = false
-  /\ spec_size (check_case 1 ex_script [5; 5; 5; 8] [7; 10; 10] true) = false
-  /\ model_run (check_case 0 ex_script [5; 7; 7; 10] [7; 10; 10] true) = false.
+  verdict_ok (check_case 1 ex_script [5; 2; 0; 3] [5; 7; 7; 10] [7; 10; 10] true) = true
+  /\ spec_final (check_case 1 ex_script [5; 2; 0; 3] [5; 7; 7; 10] [7] true) = false
+  /\ spec_size (check_case 1 ex_script [5; 2; 0; 3] [5; 5; 5; 8] [7; 10; 10] true) = false
+  /\ model_run (check_case 0 ex_script [5; 2; 0; 3] [5; 7; 7; 10] [7; 10; 10] true) = false
+  (* a call handed on in pieces 2 + 1: Size() after the first piece (7) may be received ... *)
+  /\ spec_ok (check_case 1 [mkOp KWrite 5 5 false; mkOp KWrite 9 3 false] [5; 2; 1] [5; 8] [7; 8; 8] true) = true
+  (* ... a position that was never reported (5 + 4) may not *)
+  /\ spec_prefix (check_case 1 [mkOp KWrite 5 5 false; mkOp KWrite 9 3 false] [5; 2; 1] [5; 8] [9; 8] true) = false.
 Proof. vm_compute. repeat split; reflexivity. Qed.
